@@ -145,6 +145,32 @@ CHECKS["C10"] = dict(
          "mixed lists are not asserted; trusts the fake backend and the reference codecs of go-cassandra-native-protocol; protocol v4 only.",
     design="§6 C10")
 
+CHECKS["C14"] = dict(
+    category="model_checking",
+    technique="TLA+ spec Events.tla model-checked with TLC (EventsMC); traces of seeded connect/register/disconnect/event/failover histories recorded from "
+              "the real proxy validated by TLC against TraceEvents.tla (trace validation, code->spec)",
+    text="TLC checks OnlySchema, OnlyRegistered, MustSubsetMay and DeliveredAtRest over all interleavings of 3 clients connecting, registering for any "
+         "subset of event types (also twice), disconnecting, and backend events of the three kinds; in recorded traces every EVENT frame a client receives "
+         "must be a schema event the backend emitted, on stream -1, with the backend's content, at most once per client, only for clients that registered "
+         "for SCHEMA_CHANGE, and at quiescence every registered-and-connected client must have received every schema event; histories include v3/v4 "
+         "clients, lz4/snappy, and control-connection failover between events",
+    note="Registration and disconnection race with the fan-out, so each event carries must/may sets; events are emitted only while a registered control "
+         "connection exists (events in flight on a dying connection are outside the statement); missing deliveries are judged after a quiescence window.",
+    design="§6 C14")
+CHECKS["C16"] = dict(
+    category="model_checking",
+    technique="TLA+ specs Topology.tla (fault-sequence enumeration with expected converged state) and Backoff.tla (delay table with bounds) checked and "
+              "exported by TLC; every fault sequence applied to the real proxy and compared after each fault (spec->code replay); delays observed at "
+              "verif hooks and table rows replayed into NewReconnectPolicyWithDelays",
+    text="For every fault sequence (node add / remove / unlist / stop / start / restart, pooled / control / all connections dropped, heartbeat silence; "
+         "<=4 hosts, <=4 faults; quick tier a seeded sample) the real proxy converges after every fault to routing exactly the nodes that are listed and "
+         "up, re-establishes the control connection (failing over to another host) and reports zero outage; with every node down the outage grows and it "
+         "returns to zero afterwards; reconnect delays stay within [min(base,max), max], restart from the attempt-0 delay after a successful connect, and "
+         "every row of the Backoff table (bases up to 12 h, attempts up to 70) holds in the real calculator",
+    note="Time is abstracted to 'converged within a bounded wait' (8 s per fault, refresh window shortened to 100 ms by a verif hook); the readiness HTTP "
+         "endpoint itself is exercised by C20's binary runs only indirectly; heartbeat silence is exercised in the thorough tier only.",
+    design="§6 C16")
+
 NOT_YET = "check not built yet in this session (planned, see DESIGN.md §6)"
 
 
